@@ -1,5 +1,6 @@
 import PdshVerif.Base.Hex
 import PdshVerif.Exec.Format
+import PdshVerif.Exec.EndToEnd
 import PdshVerif.Exec.Spec
 import PdshVerif.Opt.Rcmd
 import PdshVerif.Opt.RcmdSpec
@@ -13,6 +14,9 @@ import Driver.Util
      fmt  HOST USER RANK MEM             -> ok HEX | null | ub
      args HOST USER RANK PATH TAIL ARG*  -> ok A0 A1 ... | ub
      req  PORT|none LUSER RUSER CMD      -> HEX of the wire request
+     writes PORT|none LUSER RUSER CMD    -> HEX of xrcmd's write(2) calls, concatenated
+     execv HOST USER RANK TAIL CMD WORD* -> ok PATH A0 A1 ... | ub   (execcmd + pipecmd: WORDs = the
+                                            remote command words, none = interactive mode, CMD = opt->cmd)
      reg  loaded=L env=S|~ R=S|~ l=S|~ luser=S T=L W=TEXT/L/L ...   (S hex, L = hex+hex+..., W = word
           text / first-level names / final names; RCMD_RANK_LIST comes from Gen)
                                          -> fatal | ok TYPE|HOST|USER|RANK ...   (TYPE `~` = no module)
@@ -141,6 +145,22 @@ def stepModel (v : Variant) (re : Bool) (line : String) : String :=
       | some p => hx (rshRequest p l r c)
       | none => "bad-op"
     | _, _, _ => "bad-op"
+  | ["writes", port, l, r, c] =>
+    match Hex.decodeToChars l, Hex.decodeToChars r, Hex.decodeToChars c with
+    | some l, some r, some c =>
+      let p : Option (Option Nat) := if port = "none" then some none else port.toNat?.map some
+      match p with
+      | some p => hx (xrcmdWrites p l r c).flatten
+      | none => "bad-op"
+    | _, _, _ => "bad-op"
+  | "execv" :: h :: u :: r :: t :: c :: rest =>
+    match Hex.decodeToChars h, Hex.decodeToChars u, r.toNat?, Hex.decodeToChars t, Hex.decodeToChars c,
+          decodeAll rest with
+    | some h, some u, some r, some t, some c, some ws =>
+      match execCall v ⟨h, u, r⟩ ws c t with
+      | some call => "ok " ++ hx call.path ++ " " ++ " ".intercalate (call.argv.map hx)
+      | none => "ub"
+    | _, _, _, _, _, _ => "bad-op"
   | "reg" :: rest => regModel re rest
   | _ => "bad-op"
 
